@@ -51,6 +51,26 @@ Theorem literal_typing_agrees :
 Proof. intros F l t H. exact (load_int_agrees l t H). Qed.
 Print Assumptions literal_typing_agrees.
 
+(* the conversion step of the usual arithmetic conversions is part of both sides: an integer operand
+   compared with a float (double) operand is first converted into that floating type (f_of_Z with
+   s = true / false), and only then compared; so 16777217 == 16777216.0f is decided in float, where
+   both are 2^24 (instance of fold_agrees_partial, spelled out; holds for every float implementation) *)
+Theorem mixed_compare_converts_first :
+  forall (F : Type) (ops : fops F) (s : bool) (il : ilit) (t : ityp) (f : F),
+    lit_type il = Some t -> ffinite ops f = true ->
+    let z := lit_value (l_base il) (l_digits il) in
+    let e := EBin Eq (ELit (LInt il)) (ELit (LFloat s f)) in
+    cpp_eval ops e = Some (CI TBool (b2z (feq ops (f_of_Z ops s z) f))) /\
+    eval ops fixed e = Val (PI KBool (b2z (feq ops (f_of_Z ops s z) f))).
+Proof.
+  intros F ops s il t f Ht Hf z e. subst e. split.
+  - cbn [cpp_eval lit_eval]. rewrite Ht, Hf. destruct s; reflexivity.
+  - cbn [eval load]. rewrite (load_int_agrees il t Ht).
+    cbn [fix_sc fixed andb]. unfold binop_eval. cbn [is_shift andb].
+    rewrite ret_type_if. destruct s; reflexivity.
+Qed.
+Print Assumptions mixed_compare_converts_first.
+
 (* operands that C++ does not evaluate are not evaluated: whatever b is (even if evaluating it is
    undefined behaviour in the library), a false left operand of && decides the result *)
 Theorem and_skips_right :
